@@ -37,17 +37,26 @@ func repoDir() string {
 // ---------------------------------------------------------------- facts (T2)
 
 func (P) Facts() []core.Fact {
-	names, lengths := txscript.VerifOpcodeTableC06()
+	// encoded length of every opcode as the exported tokenizer sees it: bytes consumed by the opcode when it is
+	// followed by zero bytes (1 = bare opcode, n+1 = direct push of n bytes, 2/3/5 = PUSHDATA1/2/4 with length 0)
+	var lengths []int64
+	for op := 0; op < 256; op++ {
+		t := txscript.MakeScriptTokenizer(0, append([]byte{byte(op)}, make([]byte, 80)...))
+		if !t.Next() {
+			lengths = append(lengths, -1)
+			continue
+		}
+		lengths = append(lengths, int64(t.ByteIndex()))
+	}
 	fs := []core.Fact{
-		{Name: "opNames", Value: names},
-		{Name: "opLengths", Value: lengths},
+		{Name: "opConsumed", Value: lengths},
 		{Name: "maxStackSize", Value: int64(txscript.MaxStackSize)},
 		{Name: "maxScriptSize", Value: int64(txscript.MaxScriptSize)},
 		{Name: "maxOpsPerScript", Value: int64(txscript.MaxOpsPerScript)},
 		{Name: "maxPubKeysPerMultiSig", Value: int64(txscript.MaxPubKeysPerMultiSig)},
 		{Name: "maxScriptElementSize", Value: int64(txscript.MaxScriptElementSize)},
 		{Name: "lockTimeThreshold", Value: int64(txscript.LockTimeThreshold)},
-		{Name: "standardVerifyFlags", Value: int64(txscript.StandardVerifyFlags)},
+		{Name: "standardVerifyFlags", Value: int64(toProto(txscript.StandardVerifyFlags))},
 		{Name: "taprootAnnexTag", Value: int64(txscript.TaprootAnnexTag)},
 		{Name: "taprootLeafMask", Value: int64(txscript.TaprootLeafMask)},
 		{Name: "baseLeafVersion", Value: int64(txscript.BaseLeafVersion)},
@@ -59,26 +68,27 @@ func (P) Facts() []core.Fact {
 		{Name: "sequenceLockTimeMask", Value: int64(wire.SequenceLockTimeMask)},
 		{Name: "maxTxInSequenceNum", Value: int64(wire.MaxTxInSequenceNum)},
 	}
-	for k, v := range txscript.VerifConstsC06() {
-		fs = append(fs, core.Fact{Name: k, Value: v})
-	}
+	// disabled opcodes: fail with the disabled-opcode error in an unexecuted branch; OP_SUCCESSx: reported by the
+	// exported scanner
 	var disabled, success []int64
-	for i := 0; i < 256; i++ {
-		if txscript.VerifIsDisabledC06(byte(i)) {
-			disabled = append(disabled, int64(i))
+	for op := 0; op < 256; op++ {
+		if op >= 0x4f || op == 0 {
+			sp := &spend{flags: 0}
+			tx, prev := creditSpend(nil, []byte{0x00, 0x63, byte(op), 0x68, 0x51}, nil, 0)
+			sp.tx, sp.idx, sp.spent = tx, 0, []*wire.TxOut{prev}
+			vm, err := txscript.NewEngine(prev.PkScript, tx, 0, 0, nil, nil, 0, sp.fetcher())
+			if err == nil {
+				err = vm.Execute()
+			}
+			if txscript.IsErrorCode(err, txscript.ErrDisabledOpcode) {
+				disabled = append(disabled, int64(op))
+			}
 		}
-		if txscript.VerifIsOpSuccessC06(byte(i)) {
-			success = append(success, int64(i))
+		if txscript.ScriptHasOpSuccess([]byte{byte(op)}) {
+			success = append(success, int64(op))
 		}
 	}
 	fs = append(fs, core.Fact{Name: "disabledOpcodes", Value: disabled}, core.Fact{Name: "successOpcodes", Value: success})
-	var flagNames []string
-	var flagVals []int64
-	for _, f := range flagTable {
-		flagNames = append(flagNames, f.name)
-		flagVals = append(flagVals, int64(f.flag))
-	}
-	fs = append(fs, core.Fact{Name: "flagNames", Value: flagNames}, core.Fact{Name: "flagValues", Value: flagVals})
 	return fs
 }
 
@@ -110,7 +120,36 @@ var flagTable = []struct {
 	{"ScriptVerifyConstScriptCode", "CONST_SCRIPTCODE", txscript.ScriptVerifyConstScriptCode},
 }
 
-const allFlags = txscript.ScriptFlags(1<<21 - 1)
+// allFlags is the union of every named flag.
+var allFlags = func() txscript.ScriptFlags {
+	var f txscript.ScriptFlags
+	for _, t := range flagTable {
+		f |= t.flag
+	}
+	return f
+}()
+
+// The protocol line carries flags in the protocol's own numbering (bit i = i-th entry of flagTable, the order
+// of the Lean `Flags.ofNat`), never btcd's in-memory bit values.
+func toProto(fl txscript.ScriptFlags) uint32 {
+	var n uint32
+	for i, t := range flagTable {
+		if fl&t.flag != 0 {
+			n |= 1 << uint(i)
+		}
+	}
+	return n
+}
+
+func fromProto(n uint32) txscript.ScriptFlags {
+	var fl txscript.ScriptFlags
+	for i, t := range flagTable {
+		if n&(1<<uint(i)) != 0 {
+			fl |= t.flag
+		}
+	}
+	return fl
+}
 
 func parseCoreFlags(s string) (txscript.ScriptFlags, error) {
 	var fl txscript.ScriptFlags
@@ -170,7 +209,7 @@ func (s *spend) base() string {
 	if sp == "" {
 		sp = "-"
 	}
-	return fmt.Sprintf("%d %s %d %s", uint32(s.flags), hex.EncodeToString(buf.Bytes()), s.idx, sp)
+	return fmt.Sprintf("%d %s %d %s", toProto(s.flags), hex.EncodeToString(buf.Bytes()), s.idx, sp)
 }
 
 func parseSpend(f []string) *spend {
@@ -187,7 +226,7 @@ func parseSpend(f []string) *spend {
 	if err != nil {
 		panic(err)
 	}
-	s := &spend{flags: txscript.ScriptFlags(fl), tx: &tx, idx: idx}
+	s := &spend{flags: fromProto(uint32(fl)), tx: &tx, idx: idx}
 	if f[3] != "-" {
 		for _, e := range strings.Split(f[3], ",") {
 			p := strings.SplitN(e, ":", 2)
@@ -322,7 +361,7 @@ func exec(f []string) string {
 		if err != nil {
 			return "bad-op"
 		}
-		return hexTok(txscript.VerifScriptNumBytesC06(n))
+		return hexTok(builderNumBytes(n))
 	case "tok":
 		script := unhexTok(f[1])
 		t := txscript.MakeScriptTokenizer(0, script)
@@ -366,4 +405,25 @@ func execSighash(f []string) string {
 		return hex.EncodeToString(h)
 	}
 	return "bad-op"
+}
+
+// builderNumBytes is the script-number encoding of n as the exported ScriptBuilder pushes it.
+func builderNumBytes(n int64) []byte {
+	sc, err := txscript.NewScriptBuilder().AddInt64(n).Script()
+	if err != nil {
+		panic(err)
+	}
+	switch {
+	case n == 0:
+		return nil
+	case n == -1:
+		return []byte{0x81}
+	case n >= 1 && n <= 16:
+		return []byte{byte(n)}
+	}
+	t := txscript.MakeScriptTokenizer(0, sc)
+	if !t.Next() {
+		panic("builder script does not parse")
+	}
+	return append([]byte{}, t.Data()...)
 }
